@@ -1,8 +1,48 @@
-import patchmode, rootmode
+"""C07 - read-only / create-only exclusion.
+
+Codec level: Props/C07.v + Props/C11_patch.v, mode c07 and c11p of harness/codecdrv (patchmode), root module (rootmode).
+Binding level: mode c07http of harness/httpdrv (harness/httpdrv/c07http.go) - the family resources (checks/family.py RESOURCES:
+excluded-field sets read-only only / create-only only / both / none, collection and simple) through the REAL generator, then the
+generated clients against the generated RegisterResource; the expected excluded set per method is derived from the restspec
+annotations by the driver, independently of the generator."""
+import json, os
+import httpdrv, patchmode, rootmode
+from lib import *
+
+HTTP_TRUSTED = (
+    "binding level (which specification the generated client / RegisterResource hand to the codec for each method): decided by the "
+    "property oracle of harness/httpdrv mode c07http on the implementation (generated client -> recorded wire -> generated server with the "
+    "generated MockResource); the expected excluded set is computed from the readOnlyFields / createOnlyFields annotations of "
+    "checks/family.py; JSON bodies are compared with encoding/json; no Coq cases at this level")
+
+
+def http_post(run, rep0, out0):
+    """the generated bindings: what the client transmits, what the server accepts (oracle failures only)"""
+    try:
+        hwork = os.path.join(run.work, "http")
+        os.makedirs(hwork, exist_ok=True)
+        exe, schema = httpdrv.build_driver(hwork)
+        hout = os.path.join(hwork, "out")
+        rc, o = sh([exe, "--out", hout, "--tier", run.tier, "--seed", str(run.seed)], cwd=hwork,
+                   env=env_go(dict(VERIF_SCHEMA=schema, VERIF_MODE="c07http")), timeout=1800)
+        if rc != 0:
+            raise Broken("correspondence", "binding-level exclusion driver (httpdrv mode c07http) failed (exit %s)" % rc, o[-4000:])
+        hrep = json.load(open(os.path.join(hout, "report.json")))
+    except Broken as b:
+        run.broken.append(b)
+        return
+    for f in hrep["failures"]:
+        run.fail_input(f["sig"], f["what"], f["case"], site=f.get("site"), impl=f.get("impl"))
+    run.cov["generated_bindings"] = dict(evaluations=hrep["evaluations"], distinct_nontrivial=hrep["distinct_nontrivial"],
+                                         rule=hrep["rule"], input_distribution=hrep["distribution"], samples=hrep["samples"][:3] or ["(none)"],
+                                         oracle_failures=sorted(set(f["sig"] for f in hrep["failures"])))
+    if HTTP_TRUSTED not in run.trusted:
+        run.trusted.append(HTTP_TRUSTED)
+    run.log("generated bindings: %d evaluations, %d oracle failures" % (hrep["evaluations"], len(hrep["failures"])))
 
 
 def main(tier, seed, replay):
     return patchmode.run("C07", tier, seed, replay,
-                         base=dict(mode="c07", prop="Props.C07",
+                         base=dict(mode="c07", prop=["Props.C07", "Props.C07_decode"],
                                    corr="corr:exclusion (model writer bytes / reader outcome with PathSpec exclusion vs the implementation)"),
-                         post=rootmode.post("c07"))
+                         post=rootmode.post_chain(http_post, rootmode.post("c07")))
